@@ -2,8 +2,10 @@
 import numpy as np
 
 
-def deep_diff(a, b, ignore_prefix="_vmon"):
-    """attribute-by-attribute comparison of two Atoms objects -> list of differing attribute names"""
+def deep_diff(a, b, ignore_prefix="_"):
+    """attribute-by-attribute comparison of two Atoms objects -> list of differing attribute names.
+    Private attributes (leading underscore) are not state a user can observe: a memo filled in while the object is read is no
+    modification, and a stale one shows in what the public accessors return, which is compared elsewhere."""
     out = []
     keys = sorted(set(a.__dict__) | set(b.__dict__))
     for k in keys:
